@@ -426,6 +426,7 @@ func c16(c *eng.Ctx) {
 		n := n
 		eng.Check(c, "C16.numpasses", n, numPassesFn)
 	}
+	htSparseSpace(c)
 	c16Streams(c)
 }
 
@@ -466,6 +467,90 @@ func chunkSpace(c *eng.Ctx, sub string, wrLo, wrHi int, fn func(chunkCase) *eng.
 			}
 		}
 	})
+}
+
+// htSparseCase: an HT code-block with up to three non-zero coefficients.
+type htSparseCase struct {
+	W, H, KMax int
+	Pos        []int
+	Val        []int32
+}
+
+var htSparseFn = eng.Reg("C16.ht-sparse-block", func(a htSparseCase) *eng.Fail {
+	coef := make([]int32, a.W*a.H)
+	for i, p := range a.Pos {
+		coef[p] = a.Val[i]
+	}
+	enc := htj2k.NewHTEncoder(a.W, a.H)
+	enc.SetKMax(a.KMax)
+	data, err := enc.Encode(coef, 1, 0)
+	if err != nil {
+		return eng.Failf("ht-encode-error:"+stripDigits(err.Error()), "%v", err)
+	}
+	for i := 0; i+1 < len(data); i++ {
+		if data[i] == 0xFF && data[i+1] > 0x8F {
+			return eng.Failf("ht-block-marker-code", "%dx%d block, coefficients %v at %v: bytes FF %02X at offset %d of the %d-byte code-block (%x)", a.W, a.H, a.Val, a.Pos, data[i+1], i, len(data), data)
+		}
+	}
+	dec := htj2k.NewHTDecoder(a.W, a.H)
+	dec.SetCodingContext(a.KMax, a.KMax-1)
+	if err := dec.DecodeWithBitplane(data, 1, a.KMax, 0); err != nil {
+		return eng.Failf("ht-decode-error:"+stripDigits(err.Error()), "%v", err)
+	}
+	got := dec.GetData()
+	for i := range coef {
+		if i < len(got) && got[i] != coef[i] {
+			return eng.Failf("ht-block-mismatch", "%dx%d: coefficient %d decoded %d want %d", a.W, a.H, i, got[i], coef[i])
+		}
+	}
+	return nil
+})
+
+// htSparseSpace: every placement of one, two or three non-zero coefficients from {+-1, +-2, +-3} (three: {-2, +3, -1} in
+// every order) in blocks of the shapes a 10x13 or 16x16 image yields after one decomposition level: the MEL, VLC and
+// MagSgn streams are short and mostly made of their termination rules, which is where marker codes can slip in.
+func htSparseSpace(c *eng.Ctx) {
+	before := c.Evals()
+	vals := []int32{1, -1, 2, -2, 3, -3}
+	shapes := [][2]int{{5, 7}, {7, 5}, {5, 6}, {8, 8}, {4, 4}, {3, 9}}
+	type job struct{ w, h, p0 int }
+	var jobs []job
+	for _, sh := range shapes {
+		for p0 := 0; p0 < sh[0]*sh[1]; p0++ {
+			jobs = append(jobs, job{sh[0], sh[1], p0})
+		}
+	}
+	ok := true
+	if f := htSparseFn(htSparseCase{W: 4, H: 4, KMax: 9, Pos: []int{5}, Val: []int32{3}}); f != nil && f.Key != "ht-block-marker-code" {
+		c.Note("ht-sparse-blocks dropped: the exported HTEncoder/HTDecoder pair does not round-trip the probe (%s)", f.Detail)
+		ok = false
+	}
+	if ok {
+		done := c.Par(len(jobs), func(i int) {
+			j := jobs[i]
+			n := j.w * j.h
+			for _, v0 := range vals {
+				eng.Check(c, "C16.ht-sparse-block", htSparseCase{j.w, j.h, 9, []int{j.p0}, []int32{v0}}, htSparseFn)
+				for p1 := j.p0 + 1; p1 < n; p1++ {
+					for _, v1 := range vals {
+						eng.Check(c, "C16.ht-sparse-block", htSparseCase{j.w, j.h, 9, []int{j.p0, p1}, []int32{v0, v1}}, htSparseFn)
+					}
+					if c.Quick() && (j.w*j.h > 36 || (j.p0+p1)%2 != 0) {
+						continue
+					}
+					for p2 := p1 + 1; p2 < n; p2++ {
+						for _, v2 := range []int32{-2, 3} {
+							if v0 > 0 == (v2 > 0) && v0 != 1 {
+								continue
+							}
+							eng.Check(c, "C16.ht-sparse-block", htSparseCase{j.w, j.h, 9, []int{j.p0, p1, p2}, []int32{v0, -v0, v2}}, htSparseFn)
+						}
+					}
+				}
+			}
+		})
+		c.Subspace("ht-sparse-blocks", c.Evals()-before, done && c.Thorough(), "HT block coder: shapes {5x7,7x5,5x6,8x8,4x4,3x9} x every placement of one or two non-zero coefficients from {+-1,+-2,+-3} and (quick: half of the placements on the small shapes) three: no FF followed by a byte above 8F inside the code-block, and the block decodes to itself")
+	}
 }
 
 func c16Streams(c *eng.Ctx) {
